@@ -106,6 +106,28 @@ CHECKS = {
               "the reference, complete when the measured depth is below the limit, limit restored, registry clean, only the projection's own exception may escape."),
         technique="recorded evaluate_bounded traces over a recursion-limit sweep validated by TLC against a TLA+ model; reference answers from the TLA+ machine",
         ref="5/C17", category="model_checking"),
+    "C10": dict(
+        text=("spec/Syntax.tla is an independent recogniser of the token-level language of prolog.g4 with a sentence generator (Derive) and single-edit corruptions; "
+              "TLC classifies every token string up to length 4 (thorough 5; a 1/16 shard chosen by the seed) over 21 token kinds + 2 pseudo kinds, derives every sentence up to "
+              "7-8 tokens (invariant GeneratorSound) and enumerates every single-edit corruption (delete, insert each kind, duplicate, swap, truncate, foreign character, opened "
+              "quote) of sampled sentences; each string is rendered and compiled: outside the language => must raise; inside and accepted => the def lines of the output equal "
+              "the clause heads spec/Syntax.tla!ClauseInfo finds."),
+        technique="TLA+ recogniser/generator of the grammar's language; TLC-enumerated strings and corruptions compiled by the real compiler",
+        ref="5/C10"),
+    "C11": dict(
+        text=("spec/Emitted.tla!DefinesExactly evaluated by TLC on records of the compiler's output (projected Python AST, names added by loading, generator flags, a query per "
+              "predicate) for programs with boundary lexemes in every position (numeral spellings, variables named like Python constants/engine/internal names, atoms that are "
+              "Python keywords, quoted atoms), never-succeeding and empty bodies, conjunction chains 1..100, if-then-else depth 12, term depth 200, lists of 2000, and sentences "
+              "derived by spec/Syntax.tla rendered with boundary lexemes. Evaluator use of TLC: the deciding artefact is the explicit relation."),
+        technique="explicit TLA+ relation between source and emitted AST, evaluated by TLC on recorded compiler output",
+        ref="5/C11"),
+    "C12": dict(
+        text=("spec/Emitted.tla!EmittedOK (node-kind whitelist, call targets, constants only from the source, no capture of engine names, reads only of params/locals/engine "
+              "names, function names = head keys, silent audit hook while loading and querying) evaluated by TLC on recorded output for hostile lexemes in every syntactic "
+              "position incl. the generator's internal pseudo goal; spec/YP.tla!DoCallReserved replayed for 31 reserved/builtin names x arities x routes (query, compiled body, "
+              "call/N, dynamic fact under a reserved name); probe of the globals and __builtins__ visible to loaded code."),
+        technique="explicit TLA+ shape relation evaluated by TLC on recorded compiler output; reserved-name behaviours of the TLA+ machine replayed",
+        ref="5/C12"),
 }
 
 PENDING = {}
